@@ -343,17 +343,19 @@ func checkC07(c *Ctx) {
 	// probe is in flight is recognised as a duplicate (it neither probes nor shares again)
 	r.Rule("C07.12", "a delivery is tracked before its liveness probe and before it is shared", 1)
 	if f := c.fn("C07.12", lib, "RegistrationManager", "ingestRegistration"); f != nil {
-		tr, okT := findOneDeep(f, shortIs("TrackRegistration"))
-		if !okT {
+		trackSites := map[ssa.Instruction]bool{}
+		for _, l := range findDeep(f, shortIs("TrackRegistration", "TrackRegIfNotExists"), 2) {
+			trackSites[l.site()] = true
+		}
+		if len(trackSites) == 0 {
 			r.Unk("C07.12", "ingestRegistration: TrackRegistration", f.Pos(), fnName(f), "call not found")
 		} else {
-			site := tr.site()
 			n := 0
 			for _, what := range []string{"PhantomIsLive", "tryShareRegistrationOverAPI"} {
 				for _, l := range findDeep(f, shortIs(what), 2) {
 					n++
 					tgt := l.site()
-					early, w := reach(f, nil, isInstr(tgt), isInstr(site), nil)
+					early, w := reach(f, nil, isInstr(tgt), inSet(trackSites), nil)
 					if early {
 						r.Bad("C07.12", "ingestRegistration: "+what+" reachable before the delivery is tracked", tgt.Pos(), fnName(f),
 							"the registration is not in the table while its probe is outstanding: a second delivery of the same registration is not recognised as a duplicate, runs its own probe and is shared with the peers a second time", r.blockPath(f, w)...)
